@@ -335,11 +335,18 @@ def check_depth_sort(ck: Check, repo: Repo, r) -> None:
         x = key.args.args[0].arg
         return ast.unparse(key.body) in (f"{x}.directory.parts", f"len({x}.directory.parts)")
 
-    sorts = [(i, s.value) for i, s in enumerate(fn.body) if isinstance(s, ast.Expr) and isinstance(s.value, ast.Call)
+    # statements at any nesting depth (a memo wrapper `if cached is None: ...` around the body is still the same function),
+    # ordered by execution position
+    from ..model import order_index as _oi
+    _pos = _oi(fn)
+    _stmts = sorted((n for n in ast.walk(fn) if isinstance(n, ast.stmt) and n is not fn), key=lambda n: _pos[id(n)])
+    sorts = [(_pos[id(s)], s.value) for s in _stmts if isinstance(s, ast.Expr) and isinstance(s.value, ast.Call)
              and ast.unparse(s.value.func) == f"{acc}.sort"]
-    ret = [i for i, s in enumerate(fn.body) if isinstance(s, ast.Return)]
-    ret_sorted = bool(ret) and isinstance(fn.body[ret[0]].value, ast.Call) and ast.unparse(fn.body[ret[0]].value.func) == "sorted" \
-        and ast.unparse(fn.body[ret[0]].value.args[0]) == acc and depth_key(fn.body[ret[0]].value)
+    ret = [_pos[id(s)] for s in _stmts if isinstance(s, ast.Return)][-1:]
+    _ret_nodes = [s for s in _stmts if isinstance(s, ast.Return)]
+    _rv = _ret_nodes[-1].value if _ret_nodes else None
+    ret_sorted = isinstance(_rv, ast.Call) and ast.unparse(_rv.func) == "sorted" \
+        and ast.unparse(_rv.args[0]) == acc and depth_key(_rv)
     stmt_sorted = any(depth_key(c) and not any(kw.arg == "reverse" for kw in c.keywords) and ret and i < ret[0] for i, c in sorts)
     keys = [ast.unparse(kw.value) for _, c in sorts for kw in c.keywords if kw.arg == "key"]
     r.instance("relevant-tomls", {"filter": filt, "sort_keys": keys, "sorted_by_depth": stmt_sorted or ret_sorted})
@@ -357,9 +364,7 @@ def rule_nesting_sort_only(ck: Check, repo: Repo, rid: str) -> None:
     check_depth_sort(ck, repo, r)
 
 
-def rule_nesting(ck: Check, repo: Repo) -> None:
-    r = ck.rule("R4", "nested REUSE.toml: top-down, stop at the first override, closest per attribute")
-    check_depth_sort(ck, repo, r)
+def check_relevant_items(ck: Check, repo: Repo, r) -> None:
     # items: every relevant toml, matched against the path relative to its directory, in that order
     q1 = f"{GL}.NestedReuseTOML._find_relevant_tomls_and_items"
     f1 = repo.func(q1)
@@ -387,9 +392,39 @@ def rule_nesting(ck: Check, repo: Repo) -> None:
             ok = detail["iterates"] == f"self._find_relevant_tomls({adj})" and first == lv and second == want_item \
                 and gtxt == [f"{want_item} is not None"] and rets == [acc] \
                 and not any(isinstance(n, (ast.Break, ast.Continue)) for n in ast.walk(lp))
+    cut = []
+    for lp2 in [n for n in ast.walk(f1) if isinstance(n, ast.For)]:
+        itn = ast.unparse(lp2.iter)
+        if isinstance(lp2.iter, ast.Call) and ast.unparse(lp2.iter.func) == "enumerate" and lp2.iter.args:
+            itn = ast.unparse(lp2.iter.args[0])
+        for x in ast.walk(lp2):
+            if isinstance(x, ast.Delete) and any(isinstance(t, ast.Subscript) and ast.unparse(t.value) == itn for t in x.targets):
+                cut.append(x)
+            elif isinstance(x, ast.Call) and isinstance(x.func, ast.Attribute) and ast.unparse(x.func.value) == itn \
+                    and x.func.attr in ("pop", "remove", "clear", "insert", "append", "extend", "sort", "reverse"):
+                cut.append(x)
+    if cut:
+        r.violation(q1, f"the list of relevant REUSE.toml files is changed while it is walked: `{ast.unparse(cut[0])[:60]}`",
+                    "the list comes from _find_relevant_tomls; when that result is shared (returned from a cache, or the attribute"
+                    " itself) cutting it here removes REUSE.toml files for every later file of the directory: their annotations no"
+                    " longer apply although their globs match", repo.loc(cut[0]))
     r.instance("relevant-items", {"ok": ok, **detail})
-    if not ok:
+    if not ok and not cut:
         r.violation(q1, "item collection", "every relevant REUSE.toml contributes its matching item, in depth order", repo.loc(f1))
+
+
+def rule_relevant_items(ck: Check, repo: Repo, rid: str) -> None:
+    """'An annotation applies to a file exactly when one of its globs matches': every REUSE.toml at or above the file is
+    asked for its matching item - none is skipped, cached away or cut off (shared with C04-R4)."""
+    r = ck.rule(rid, "every REUSE.toml at or above a file is asked for its matching annotation, in depth order")
+    check_depth_sort(ck, repo, r)
+    check_relevant_items(ck, repo, r)
+
+
+def rule_nesting(ck: Check, repo: Repo) -> None:
+    r = ck.rule("R4", "nested REUSE.toml: top-down, stop at the first override, closest per attribute")
+    check_depth_sort(ck, repo, r)
+    check_relevant_items(ck, repo, r)
     # walk + override stop
     q2 = f"{GL}.NestedReuseTOML.reuse_info_of"
     f2 = repo.func(q2)
